@@ -222,7 +222,12 @@ impl Circle2 {
         let cd = (temp - p2.x.powi(2) - p2.y.powi(2)) / 2.0;
         let det = (p0.x - p1.x) * (p1.y - p2.y) - (p1.x - p2.x) * (p0.y - p1.y);
 
-        if det.abs() < 1.0e-6 {
+        // The determinant is twice the area of the triangle, so collinearity is judged relative
+        // to the lengths of the two sides it was formed from (it is the sine of the angle between
+        // them). An absolute threshold rejected every well-shaped triangle smaller than about
+        // 1e-3 across, for instance three consecutive vertices of a densely sampled curve.
+        let scale = dist(&p0, &p1) * dist(&p1, &p2);
+        if det.abs() <= 1.0e-6 * scale {
             Err("Points are collinear".into())
         } else {
             let cx = (bc * (p1.y - p2.y) - cd * (p0.y - p1.y)) / det;
